@@ -127,7 +127,9 @@ Definition with_mode (m : meta) (mode : N) : meta :=
      m_uid := m_uid m; m_gid := m_gid m |}.
 
 Definition with_owner (m : meta) (uid gid : Z) : meta :=
-  {| m_mode := m_mode m; m_uid := uid; m_gid := gid |}.
+  {| m_mode := m_mode m;
+     m_uid := if Z.eqb uid (-1) then m_uid m else uid;
+     m_gid := if Z.eqb gid (-1) then m_gid m else gid |}.
 
 Definition set_meta (n : node) (m : meta) : node :=
   match n with
@@ -238,7 +240,7 @@ Definition fill_stat (n : node) (name : str) : finfo :=
                     fi_uid := m_uid m; fi_gid := m_gid m; fi_nlink := 0; fi_id := 0 |}
   | NFile d k i m => {| fi_name := name; fi_size := Z.of_nat (length d); fi_mode := m_mode m;
                         fi_uid := m_uid m; fi_gid := m_gid m; fi_nlink := k; fi_id := i |}
-  | NSym _ m => {| fi_name := name; fi_size := 1; fi_mode := m_mode m;
+  | NSym l m => {| fi_name := name; fi_size := Z.of_nat (length l); fi_mode := m_mode m;
                    fi_uid := m_uid m; fi_gid := m_gid m; fi_nlink := 0; fi_id := 0 |}
   end.
 
@@ -277,7 +279,7 @@ Definition delete_node (h : heap) (c : nat) : heap :=
 (* createDir / createFile / createSymlink: allocate at the end, link into parent *)
 Definition create_dir (s : fsys) (v : view) (parent : nat) (name : str) (perm : N) : fsys * nat :=
   let c := length (f_heap s) in
-  let h1 := f_heap s ++ [NDir [] (new_meta v (dir_mode (v_os v)) perm)] in
+  let h1 := f_heap s ++ [NDir [] (new_meta v (dir_mode (v_os v)) (N.land perm (511 + MODE_STICKY)))] in
   ({| f_heap := add_child h1 parent name c; f_last_id := f_last_id s; f_vols := f_vols s |}, c).
 
 Definition create_file (s : fsys) (v : view) (parent : nat) (name : str) (perm : N) : fsys * nat :=
@@ -338,7 +340,7 @@ Definition mkdir (s : fsys) (v : view) (name : str) (perm : N) : fsys * res :=
   match name with
   | [] => (s, RFail ENoSuchDir)
   | _ =>
-      let r := search_node s v name SlEval in
+      let r := search_node s v name SlLstat in
       if negb (is_not_exist (sr_err r)) || negb (pi_is_last (sr_pi r)) then (s, RFail (sr_err r))
       else match sr_parent r with
            | None => (s, RPanic)
@@ -398,9 +400,15 @@ Definition mkdir_all (s : fsys) (v : view) (path : str) (perm : N) : fsys * res 
 Definition open_file (s : fsys) (v : view) (view_ix : nat) (name : str) (flag perm : N)
   : fsys * (res + handle) :=
   let om := to_open_mode flag in
-  let r := search_node s v name SlEval in
+  let r := search_node s v name (if has om OpenCreateExcl then SlLstat else SlEval) in
   let e := sr_err r in
   if (negb (is_file_exists e) && negb (is_not_exist e)) || negb (pi_is_last (sr_pi r)) then (s, inl (RFail e))
+  else if is_file_exists e && has om OpenCreateExcl
+          && match sr_child r with
+             | Some c => match get (f_heap s) c with Some (NSym _ _) => true | _ => false end
+             | None => false
+             end
+  then (s, inl (RFail e))
   else
     let h := f_heap s in
     let open_existing (c : nat) : fsys * (res + handle) :=
@@ -413,7 +421,8 @@ Definition open_file (s : fsys) (v : view) (view_ix : nat) (name : str) (flag pe
             let at_ := if has om OpenAppend then Z.of_nat (length d1) else 0%Z in
             (with_heap s (upd h c (NFile d1 k i m)), inr (new_handle c view_ix name at_ om))
       | Some (NDir _ m) =>
-          if has om OpenWrite then (s, inl (RFail EIsADirectory))
+          if has om OpenCreateExcl then (s, inl (RFail EFileExists))
+          else if has om OpenWrite then (s, inl (RFail EIsADirectory))
           else if negb (check_permission m om (v_user v)) then (s, inl (RFail EPermDenied))
           else (s, inr (new_handle c view_ix name 0 om))
       | _ => (s, inr (new_handle c view_ix name 0 om))
@@ -474,13 +483,13 @@ Fixpoint remove_all_rec (fuel : nat) (h : heap) (u : user) (d : nat) : heap * op
         (fix loop (chs : list (str * nat)) (h : heap) : heap * option ekind :=
            match chs with
            | [] => (h, None)
-           | (_, c) :: chs' =>
+           | (nm, c) :: chs' =>
                if node_is_dir h c then
                  match remove_all_rec f h u c with
                  | (h1, Some e) => (h1, Some e)
-                 | (h1, None) => loop chs' (delete_node h1 c)
+                 | (h1, None) => loop chs' (delete_node (remove_child h1 d nm) c)
                  end
-               else loop chs' (delete_node h c)
+               else loop chs' (delete_node (remove_child h d nm) c)
            end) (children h d) h
   end.
 
@@ -522,19 +531,26 @@ Definition rename (s : fsys) (v : view) (oldpath newpath : str) : fsys * res :=
              let h := f_heap s in
              if negb (perm_on h op OpenWrite (v_user v)) then (s, RFail EPermDenied)
              else if negb (Nat.eqb np op) && negb (perm_on h np OpenWrite (v_user v)) then (s, RFail EPermDenied)
-             else if str_eqb (pi_path (sr_pi ro)) (pi_path (sr_pi rn)) then (s, ROk)
              else
+               let same := str_eqb (pi_path (sr_pi ro)) (pi_path (sr_pi rn))
+                           || match sr_child rn with Some nc => Nat.eqb nc oc | None => false end in
                let move (h0 : heap) :=
                  (with_heap s (remove_child (add_child h0 np (pi_part (sr_pi rn)) oc) op (pi_part (sr_pi ro))), ROk) in
                match get h oc with
                | Some (NDir _ _) =>
-                   if Nat.eqb oc op
-                      || is_prefix (pi_path (sr_pi ro) ++ [sepc (v_os v)]) (pi_path (sr_pi rn))
+                   if negb (is_not_exist (sr_err rn))
+                   then (s, RFail (if win v then EW_AccessDenied
+                                   else match sr_child rn with
+                                        | Some nc => if node_is_dir h nc then sr_err rn else ENotADirectory
+                                        | None => ENotADirectory
+                                        end))
+                   else if Nat.eqb oc op
+                           || is_prefix (pi_path (sr_pi ro) ++ [sepc (v_os v)]) (pi_path (sr_pi rn))
                    then (s, RFail EInvalidArgument)
-                   else if negb (is_not_exist (sr_err rn))
-                   then (s, RFail (if win v then EW_AccessDenied else sr_err rn))
                    else move h
                | Some _ =>            (* file or symbolic link *)
+                   if same then (s, ROk)
+                   else
                    match sr_child rn with
                    | None => move h
                    | Some nc =>
@@ -598,6 +614,7 @@ Definition readlink (s : fsys) (v : view) (name : str) : res :=
 
 (* Truncate, memfs.go:949 *)
 Definition truncate (s : fsys) (v : view) (name : str) (size : Z) : fsys * res :=
+  if Z.ltb size 0 && negb (win v) then (s, RFail EInvalidArgument) else
   let r := search_node s v name SlEval in
   if negb (is_file_exists (sr_err r)) then (s, RFail (sr_err r))
   else match sr_child r with
@@ -644,7 +661,7 @@ Definition chown_gen (slm : slmode) (s : fsys) (v : view) (name : str) (uid gid 
 
 (* Chtimes, memfs.go:153 (the time itself is not modelled) *)
 Definition chtimes (s : fsys) (v : view) (name : str) : res :=
-  let r := search_node s v name SlLstat in
+  let r := search_node s v name SlEval in
   match sr_child r with
   | None => RFail (sr_err r)
   | Some c =>
@@ -657,7 +674,7 @@ Definition chtimes (s : fsys) (v : view) (name : str) : res :=
 
 (* Chdir, memfs.go:55: returns the new current directory on success *)
 Definition chdir (s : fsys) (v : view) (dir : str) : res + str :=
-  let r := search_node s v dir SlLstat in
+  let r := search_node s v dir SlEval in
   if negb (is_file_exists (sr_err r)) then inl (RFail (sr_err r))
   else match sr_child r with
        | Some c =>
@@ -677,7 +694,7 @@ Definition stat_gen (slm : slmode) (s : fsys) (v : view) (path : str) : res :=
   | Some c =>
       if negb (is_file_exists (sr_err r)) then RFail (sr_err r)
       else match get (f_heap s) c with
-           | Some n => RInfo (fill_stat n (pi_part (sr_pi r)))
+           | Some n => RInfo (fill_stat n (base (v_os v) path))
            | None => RPanic
            end
   end.
